@@ -96,12 +96,12 @@ CheckStatic(t) ==
 
 (* on-demand line: {mode:"odvod", init_range:[a,b], media_ranges:[[a,b]..], seg_pos:[..],     *)
 (*   seg_end:[..] (independent scan: first byte / last byte+1 of each stored segment),          *)
-(*   init_end, flen, fetched:[{status, ok}] }                                                   *)
+(*   init_start, init_end, flen, fetched:[{status, ok}] }                                                   *)
 CheckOnDemand(t) ==
     /\ Report("C06_DeclaredDuration", t.ref_ms_lo <= t.mpd_dur_ms /\ t.mpd_dur_ms <= t.ref_ms_hi,
               [mpd |-> t.mpd_dur_ms, lo |-> t.ref_ms_lo, hi |-> t.ref_ms_hi])
     /\ Report("C06_RangesTile",
-              /\ t.init_range[1] = 0
+              /\ t.init_range[1] = t.init_start       \* the first box of the initialization segment (ftyp): offset 0 unless padding precedes it
               /\ Len(t.media_ranges) = Len(t.seg_pos)
               /\ Len(t.media_ranges) > 0 => t.init_range[2] + 1 = t.media_ranges[1][1]
               /\ \A i \in 1..Len(t.media_ranges) :
